@@ -1,6 +1,6 @@
 #!/bin/sh
 # tools/mutest.sh <patch.diff> <CNN> [tier]: apply a seeded change to /repo, run the check, undo it.
-P="$1"; ID="$2"; TIER="${3:-quick}"
+P="$(readlink -f "$1")"; ID="$2"; TIER="${3:-quick}"
 R="${TEXTX_REPO:-/repo}"; cd "$(dirname "$0")/.." || exit 2
 if [ -n "$(git -C "$R" status --porcelain --untracked-files=no)" ]; then echo "repo not clean"; exit 2; fi
 git -C "$R" apply "$P" || { echo "patch does not apply"; exit 2; }
